@@ -12,6 +12,10 @@ use crate::{Meta, Property};
 pub struct C02;
 
 pub fn gen_stream(r: &mut Rng, i: u64, small: bool) -> (String, Vec<u8>) {
+    if i % 50 == 49 && !small {
+        let s = gen::gen_huge_session(r);
+        return ("huge-binary".into(), encode_session(&s).bytes);
+    }
     let kind = if i % 10 == 9 { 100 } else { r.below(100) };
     if kind < 40 {
         let s = gen::gen_session(r, 6);
@@ -113,7 +117,7 @@ impl Property for C02 {
                 acc.inc("streams_all_2way_splits_exhaustive");
             } else {
                 let mut pts: Vec<usize> = Vec::new();
-                for k in 0..4 {
+                for k in 0..8 {
                     let edge = 4096usize << k;
                     // the buffer edge counts from the start of the receive buffer, which is reused
                     // after the greeting: body offset == buffer offset for the first response
